@@ -347,7 +347,7 @@ pub enum NextEnd<O> {
     /// `next` found the ready queue empty and parked; the future was dropped (what `Buffer`'s
     /// `select!` does as soon as new input arrives)
     Idle,
-    /// no progress for 10 s of real time
+    /// no progress for 5 s of real time
     Hang { trace: Vec<&'static str> },
 }
 
@@ -379,7 +379,7 @@ pub async fn drive_next<T, P: Processor<T>>(p: &P, ctl: &Rc<Ctl>) -> NextEnd<Res
                 }
             }
         });
-        match tokio::time::timeout(Duration::from_secs(10), polled).await {
+        match tokio::time::timeout(Duration::from_secs(5), polled).await {
             Ok(o) => o,
             Err(_) => NextEnd::Hang {
                 trace: ctl.trace.borrow().clone(),
@@ -396,21 +396,60 @@ pub async fn drive_next<T, P: Processor<T>>(p: &P, ctl: &Rc<Ctl>) -> NextEnd<Res
 // ------------------------------------------------------------------------------------------
 
 pub struct Ctx {
-    pub rt: tokio::runtime::Runtime,
+    rt: Option<tokio::runtime::Runtime>,
     store: Option<SqliteStore>,
     pub uses: u64,
 }
 
 impl Drop for Ctx {
     fn drop(&mut self) {
-        // sqlx returns pooled connections in a spawned task: the store must be dropped inside
-        // the runtime context (a rollback task of a dropped permit may still be queued)
-        let _g = self.rt.enter();
-        self.store = None;
+        // sqlx returns pooled connections in spawned tasks and a dropped TransactionPermit rolls
+        // back in a spawned task: let those finish, drop the store inside the runtime, and never
+        // let a panic of this teardown (sqlx panics when it finds no runtime) escape.
+        let store = self.store.take();
+        let Some(rt) = self.rt.take() else { return };
+        let rt_ref = &rt;
+        let _ = explorer::catch(move || {
+            if let Some(store) = store {
+                rt_ref.block_on(async {
+                    let settle = async {
+                        if let Ok(p) = store.begin().await {
+                            let _ = store.rollback(p).await;
+                        }
+                    };
+                    let _ = tokio::time::timeout(Duration::from_secs(2), settle).await;
+                    drop(store);
+                    for _ in 0..8 {
+                        tokio::task::yield_now().await;
+                    }
+                });
+            }
+        });
+        // a second, separate unwinding boundary: the first one may have ended in a panic
+        let _ = explorer::catch(move || rt.shutdown_timeout(Duration::from_millis(200)));
     }
 }
 
 static POOL: Mutex<Vec<Ctx>> = Mutex::new(Vec::new());
+
+/// Executions that ended in a hang, panic or store error.  Each hang costs seconds of real time,
+/// so once a mutation (or defect) makes them systematic the exploration is cut short: the
+/// violation is already recorded, the run is reported as not exhaustive.
+pub static TROUBLE: std::sync::atomic::AtomicU64 = std::sync::atomic::AtomicU64::new(0);
+pub const TROUBLE_LIMIT: u64 = 24;
+
+pub fn trouble() {
+    TROUBLE.fetch_add(1, std::sync::atomic::Ordering::SeqCst);
+}
+
+/// Returns whether the limit had been reached, and resets the counter (before confirmation runs).
+pub fn take_trouble() -> bool {
+    TROUBLE.swap(0, std::sync::atomic::Ordering::SeqCst) >= TROUBLE_LIMIT
+}
+
+pub fn too_much_trouble() -> bool {
+    TROUBLE.load(std::sync::atomic::Ordering::SeqCst) >= TROUBLE_LIMIT
+}
 
 impl Ctx {
     fn fresh() -> Ctx {
@@ -419,7 +458,11 @@ impl Ctx {
             .build()
             .expect("runtime");
         let store = rt.block_on(SqliteStore::temporary());
-        Ctx { rt, store: Some(store), uses: 0 }
+        Ctx { rt: Some(rt), store: Some(store), uses: 0 }
+    }
+
+    pub fn rt(&self) -> &tokio::runtime::Runtime {
+        self.rt.as_ref().expect("runtime")
     }
 
     pub fn store(&self) -> SqliteStore {
